@@ -167,7 +167,7 @@ def shape_indexed_nbc(reg, code, idx_width, pos='suffix', indirect=False):
 
 
 def shape_enumeration(code_width, arg_width, pos='suffix', align=True, endian=None):
-    keys = {'foo': (1, 2), 'bar': (2, 5), 'baz_1': (3, 0)}
+    keys = {'foo': (1, 2), 'bar': (2, 5), 'baz_1': (3, 0), 'zed': (0, 9)}      # (code, argument); zero values included on purpose
 
     def cfg(de):
         c = {'type': 'enumeration'}
